@@ -212,7 +212,7 @@ def event_fn_time():
 
         @L.numba.njit("float64(float64, float64[:])", cache=False)
         def ev(t, y):
-            return y[1] - 0.03125 * np.cos(2.0 * t)
+            return y[1] - 0.03125 * np.cos(6.0 * t)
         _EVENT_T = ev
     return _EVENT_T
 
@@ -724,6 +724,17 @@ def check_twins(ck: Check, bad: list, variants: list, twins: dict, rnd, rhs_eval
         # same discrete behaviour, not bit-identical: rounding-level unless the outputs moved
         if dout > ROUND_TOL:
             continue                    # already reported as differs-from-generic-path
+        # ... or the VALUES the two drivers computed at the first differing event are far apart (e.g. an event function evaluated
+        # at another time: same decisions on this problem by luck, not the same computation)
+        xg, xh = (ge or {}).get("x"), (he or {}).get("x")
+        if isinstance(xg, list) and isinstance(xh, list) and len(xg) == len(xh) and xg:
+            dv = max(abs(a - b) / (1.0 + max(abs(a), abs(b))) for a, b in zip(xg, xh))
+            if dv > 1e-6:
+                bad.append((f"{rec['kernel']['ham']}|trace-values-differ-from-generic-path",
+                            f"{rec['kernel']['generic']} and {rec['kernel']['ham']} take the same decisions but compute different values at "
+                            f"event {line} ({kind} {nm}): generic {str(xg)[:100]} / ham {str(xh)[:100]} (relative difference {dv:.2e}) for {v}",
+                            dict(data, observed={"event": line, "generic": ge, "ham": he})))
+                continue
         rounding.append(dout)
         ck.notes.append(f"{rec['kernel']['generic']} / {rec['kernel']['ham']} agree on every decision and to {dout:.1e} on the "
                         f"outputs but not bit for bit (first at event {line}, {kind} {nm}) for {v}: rounding-level")
